@@ -16,11 +16,22 @@ Definition deadline_ms (k : Z) : Z :=
 (* arrivals: times (ms) at which bytes of the client arrive, ascending; the receiver starts a read at
    time t (connection start or the previous arrival): the connection expires at t + deadline if
    nothing arrives until then *)
-Fixpoint expiry (k t : Z) (arrivals : list Z) : option Z :=
+Fixpoint expiry_with (rearm : bool) (k t : Z) (arrivals : list Z) : option Z :=
   match arrivals with
   | [] => Some (t + deadline_ms k)
-  | a :: r => if t + deadline_ms k <? a then Some (t + deadline_ms k) else expiry k a r
+  | a :: r => if t + deadline_ms k <? a then Some (t + deadline_ms k)
+              else expiry_with rearm k (if rearm then a else t) r
   end.
+(* whether every read re-arms the deadline is read off timeoutReader.Read (tie T1) *)
+Definition expiry : Z -> Z -> list Z -> option Z := expiry_with reader_rearms_every_read.
+Lemma expiry_nil k t : expiry k t [] = Some (t + deadline_ms k).
+Proof. reflexivity. Qed.
+Lemma expiry_cons k t a r :
+  expiry k t (a :: r) = if t + deadline_ms k <? a then Some (t + deadline_ms k) else expiry k a r.
+Proof. reflexivity. Qed.
+(* a reader that does not re-arm drops an active client: the model is sensitive to the flag *)
+Example no_rearm_drops_active : expiry_with false 1 0 [900; 1800] = Some 1200.
+Proof. vm_compute. reflexivity. Qed.
 
 (* the connection is still alive at time `now` *)
 Definition alive (k t0 : Z) (arrivals : list Z) (now : Z) : Prop :=
@@ -60,7 +71,7 @@ Proof.
   intros Hk. induction arrivals as [|a r IH]; intros t Hg.
   - exists t. split; reflexivity.
   - cbn [gaps_below] in Hg. destruct Hg as [H1 [H2 H3]].
-    cbn [expiry]. pose proof (deadline_ge k Hk) as Hd.
+    rewrite expiry_cons. pose proof (deadline_ge k Hk) as Hd.
     destruct (t + deadline_ms k <? a) eqn:E; [lia|].
     destruct (IH a H3) as [l [He Hl]]. exists l. split; [exact He|].
     rewrite Hl. symmetry. apply last_cons.
@@ -70,11 +81,11 @@ Qed.
 Lemma silent_expires k t arrivals next :
   1 <= k -> arrivals = [next] -> t + 1500 * k <= next -> expiry k t arrivals = Some (t + 1200 * k).
 Proof.
-  intros Hk -> Hn. cbn [expiry]. rewrite (deadline_is_1200 k Hk).
+  intros Hk -> Hn. rewrite expiry_cons, expiry_nil. rewrite (deadline_is_1200 k Hk).
   destruct (t + 1200 * k <? next) eqn:E; [reflexivity | lia].
 Qed.
 Lemma silent_forever_expires k t : 1 <= k -> expiry k t [] = Some (t + 1200 * k).
-Proof. intros Hk. cbn [expiry]. rewrite (deadline_is_1200 k Hk). reflexivity. Qed.
+Proof. intros Hk. rewrite expiry_nil. rewrite (deadline_is_1200 k Hk). reflexivity. Qed.
 
 (* keep-alive 0 in the CONNECT means minKeepAlive *)
 Lemma zero_means_default : deadline_ms 0 = 36000.
